@@ -413,6 +413,19 @@ def make_case(rng, mode=None, K=None, S=None, ckind=None, skind=None, prec=None,
     return case
 
 
+def witness_case(mode):
+    """The inputs named by the fix commits: classes declared as [2,0,1]; the class 2 has the single trace [41,13,5]."""
+    brows = [[0, [10, 20, 30]], [2, [41, 13, 5]], [1, [7, 9, 11]], [0, [14, 22, 26]], [1, [9, 9, 15]], [1, [8, 12, 13]]]
+    mrows = [[40, 14, 6], [12, 20, 28], [8, 10, 12], [41, 13, 5]]
+    hyps = [[2, 0, 1], [0, 1, 2], [1, 2, 0], [2, 2, 1]]
+    case = {'mode': mode, 'parts': [2, 0, 1], 'parts_kind': 'list', 'S': 3, 'den': 1, 'sdtype': 'uint8', 'vdtype': 'uint8',
+            'prec': 'float64', 'model': 'value', 'build_rows': brows, 'sizes': [1, 2, 3], 'ckind': 'permuted', 'skind': 'singleton',
+            'G': 3, 'W': 1, 'w': 0}
+    rows = [[h if mode == 'dpa' else [], x] for h, x in zip(hyps, mrows)]
+    case['ops'] = [{'op': 'run', 'bs': 2, 'rows': rows[:2]}, {'op': 'build', 'bs': 4}, {'op': 'run', 'bs': 3, 'rows': rows}]
+    return case
+
+
 class TemplateKind(Kind):
     name = 'template_attack'
     header = HDR
@@ -442,15 +455,16 @@ class TemplateKind(Kind):
         return cases
 
     def _gen(self, rng, tier, sdt):
-        # ---- deterministic boundary block (structure fixed, values from rng)
+        # ---- deterministic boundary block (structure fixed, values from rng except for the two witnesses)
         for mode in ('static', 'dpa'):
+            yield witness_case(mode)
             for S in (1, 2, 3, 4):
                 for K in (2, 3, 6):
                     yield make_case(rng, mode=mode, K=K, S=S, pre_run=(S % 2 == 1), wrong_len=(K == 3),
                                     ckind=['permuted', 'gapped', 'reversed', 'large'][S - 1],
                                     skind=['singleton', 'empty', 'mixed', 'unbalanced'][(S + K) % 4],
                                     prec=['float64', 'float32'][(S + K) % 2], sdtypes=sdt)
-            # the shapes the fix commits are about: a singleton class [41,13,5]; classes declared as [2,0,1]
+            # more of the shapes the fix commits are about: singleton classes, permuted / reversed class lists
             yield make_case(rng, mode=mode, K=3, S=3, ckind='permuted', skind='singleton', prec='float64', sdtype='uint8', pre_run=True)
             yield make_case(rng, mode=mode, K=2, S=1, ckind='reversed', skind='singleton', prec='float32', sdtype='uint8')
             # exact regime: class sizes <= 2, K a power of two
@@ -470,7 +484,7 @@ class TemplateKind(Kind):
                 c['G'] = 9
             yield c
         # ---- random structure
-        n = 40 if tier == 'quick' else 1500
+        n = 40 if tier == 'quick' else 850
         for i in range(n):
             yield make_case(rng, model='hw' if i % 11 == 5 else 'value', sdtypes=sdt)
 
